@@ -137,3 +137,13 @@ Proof.
   intros outs thr Hthr. rewrite health_trips_spec, <- hrun_ge_suffix.
   rewrite Z.leb_le. lia.
 Qed.
+
+(* the same for the refresh-failure counter of the heartbeat loop (outcome [true]: the refresh succeeded) *)
+Lemma hb_trips_history : forall outs,
+  gen_hb_trips (Z.of_nat (hrun outs)) gen_hb_max_failures = true <->
+  exists pre, outs = pre ++ [false; false; false].
+Proof.
+  intros outs. rewrite hb_trips_spec. unfold gen_hb_max_failures.
+  change [false; false; false] with (List.repeat false 3).
+  rewrite <- hrun_ge_suffix, Z.leb_le. lia.
+Qed.
